@@ -165,6 +165,25 @@ func runC17(c *core.Ctx) {
 				got = s
 			}
 		}
+		if got == "?" {
+			// the verb handed to a helper whose request call sits in a closure (`doVerb(http.MethodGet, url)` running
+			// `withContextTimeout(func(ctx) { return DoNewRequest(ctx, nil, method, url) })`)
+			core.Instrs(m, func(ins ssa.Instruction) {
+				call, isC := ins.(*ssa.Call)
+				if !isC {
+					return
+				}
+				g := core.Callee(&call.Call)
+				if g == nil || !p.InRepo(g) || len(g.Blocks) == 0 {
+					return
+				}
+				for i, a := range call.Call.Args {
+					if s2, isS := strConst(core.Unwrap(a)); isS && i < len(g.Params) && c17verbReaches(p, g, g.Params[i], doNew, 0) {
+						got = s2
+					}
+				}
+			})
+		}
 		c.Check(got == c17verbs[v], "R1", "SimpleHTTPDef."+m.Name(), p.Pos(m.Pos()), "sends "+got, fmt.Sprintf("method %s sends HTTP %q, expected %q", m.Name(), got, c17verbs[v]))
 	}
 	for _, f := range p.Funcs {
@@ -771,6 +790,21 @@ func c17appliesHeader(p *core.Prog, f *ssa.Function, withCT bool) (bool, string)
 			}
 		}
 	}
+	if send == nil {
+		// the sending may be done by an unexported helper that is handed the built request (`doBuiltRequest(buildRequest(…))`)
+		for _, fd := range core.DeepFind(p, f, func(ins ssa.Instruction) bool {
+			call, ok := ins.(*ssa.Call)
+			if !ok {
+				return false
+			}
+			g := core.Callee(&call.Call)
+			return g != nil && g.Name() == "DoRequest"
+		}) {
+			if len(fd.Stack) >= 1 {
+				send = fd.Stack[0]
+			}
+		}
+	}
 	if build == nil || send == nil {
 		return false, "the request is not built with NewRequestWithContext and sent through DoRequest"
 	}
@@ -1005,4 +1039,38 @@ func c17delegatesTo(p *core.Prog, f *ssa.Function) string {
 		return ""
 	}
 	return g.Name()
+}
+
+// c17verbReaches: in g and the closures it builds there is at least one request call, and the method argument of every
+// one of them is g's parameter prm (read directly or through the closures' captures).
+func c17verbReaches(p *core.Prog, g *ssa.Function, prm *ssa.Parameter, doNew map[string]*ssa.Function, depth int) bool {
+	n, ok := 0, true
+	var visit func(fn *ssa.Function, toG func(ssa.Value) ssa.Value)
+	visit = func(fn *ssa.Function, toG func(ssa.Value) ssa.Value) {
+		core.Instrs(fn, func(ins ssa.Instruction) {
+			call, isC := ins.(*ssa.Call)
+			if !isC {
+				return
+			}
+			h := core.Callee(&call.Call)
+			if h != nil && (h == doNew["DoNewRequest"] || h == doNew["DoNewRequestWithBodyOptions"]) {
+				n++
+				if toG(core.Unwrap(call.Call.Args[3])) != ssa.Value(prm) {
+					ok = false
+				}
+			}
+		})
+		for _, a := range fn.AnonFuncs {
+			a := a
+			visit(a, func(v ssa.Value) ssa.Value {
+				v = core.Resolve(v)
+				if b := capturedBinding(fn, a, core.Path(v)); b != nil {
+					return toG(b)
+				}
+				return v
+			})
+		}
+	}
+	visit(g, func(v ssa.Value) ssa.Value { return core.Resolve(v) })
+	return ok && n > 0
 }
